@@ -94,6 +94,7 @@ func (s *PrintCtx) setentry(e *Entry) {
 func (s *PrintCtx) set(e *Entry, lvl Level, timestamp time.Time, stackFrame uintptr, msg string, kvps Attrs) {
 	s.setentry(e)
 
+	s.clr, s.bg = clrBasic, clrNone // do not inherit the colours of the record formatted before
 	s.lvl = lvl
 	s.now = timestamp
 	s.stackFrame = stackFrame
